@@ -354,6 +354,42 @@ func (g *gctx) method(noun string, k int) gMethod {
 			m.Req = append(m.Req, gProp{Name: nm, Ty: t, Filterable: t.Kind == "bool"})
 		}
 	}
+	// request properties whose names are related to a path parameter's name by prefix, suffix,
+	// extension or letter case: they are NOT path parameters
+	if npath > 0 && r.Chance(60) {
+		used := map[string]bool{}
+		for _, nm := range names {
+			used[nm] = true
+		}
+		for k := r.Range(1, 3); k > 0; k-- {
+			base := names[r.Intn(npath)]
+			var rel string
+			switch r.Intn(6) {
+			case 0: // proper prefix
+				rel = base[:r.Range(1, len(base)-1)]
+			case 1: // proper suffix, lower-cased first letter
+				suf := base[r.Range(1, len(base)-1):]
+				rel = strings.ToLower(suf[:1]) + suf[1:]
+			case 2: // extension
+				rel = base + vh.Pick(r, []string{"x", "s", "Ref", "two"})
+			case 3: // all lower case
+				rel = strings.ToLower(base)
+			case 4: // doubled
+				rel = base + base[:1]
+			case 5: // prefix up to the first capital ("account" of "accountId")
+				cut := strings.IndexFunc(base[1:], func(c rune) bool { return c >= 'A' && c <= 'Z' })
+				if cut > 0 {
+					rel = base[:cut+1]
+				}
+			}
+			if rel == "" || used[rel] || rel == "id" && false {
+				continue
+			}
+			used[rel] = true
+			t := vh.Pick(r, scalarSpecs)
+			m.Req = append(m.Req, gProp{Name: rel, Ty: t, Filterable: t.Kind == "bool"})
+		}
+	}
 	m.Path = "/" + strings.Join(segs, "/")
 	switch r.Intn(12) {
 	case 0:
